@@ -56,5 +56,37 @@ def addAt [Add α] [Zero α] (m : Matrix α) (r c : Nat) (v : α) : Matrix α :=
 /-- `jnp.where(a < 0.0, 0.0, a)` -/
 def whereNeg [Zero α] [LT α] [DecidableLT α] (a : List α) : List α := a.map (fun x => if x < 0 then 0 else x)
 
+/-- `m[:, idx]`: the selected columns of every row -/
+def colsTake [Zero α] (m : List (List α)) (idx : List Nat) : List (List α) := m.map (fun r => gather r idx)
+
+/-- `a.at[k:].set(vals)` (shapes agree: `vals` has `len(a) - k` entries) -/
+def atFromSet (a : List α) (k : Nat) (vals : List α) : List α := a.take k ++ vals
+
+/-- `jnp.array(series).sum(axis=0)`: entry-wise sum of equally long series -/
+def sumAxis0 [Add α] [Zero α] (srcs : List (List α)) : List α :=
+  (List.range (srcs.headD []).length).map (fun j => sumL (srcs.map (fun s => s.getD j 0)))
+
+/-- `a.max()` of a non-empty array -/
+def maxL [Zero α] [LT α] [DecidableLT α] (a : List α) : α :=
+  match a with
+  | [] => 0
+  | x :: xs => xs.foldl (fun acc y => if acc < y then y else acc) x
+
+/-- floating point `==` -/
+def feq [LT α] [DecidableLT α] (a b : α) : Bool := !(decide (a < b)) && !(decide (b < a))
+
+/-- `x in times` -/
+def memF [LT α] [DecidableLT α] (times : List α) (x : α) : Bool := times.any (fun t => feq t x)
+
+/-- `np.where(times == x)[0][0]` (defined when `x in times`) -/
+def firstIdxEq [LT α] [DecidableLT α] (times : List α) (x : α) : Nat :=
+  ((times.zipIdx.filter (fun ti => feq ti.1 x)).map (·.2)).headD 0
+
+/-- truthiness of an optional number: not `None` and not `0` -/
+def truthyOptNum [Zero α] [LT α] [DecidableLT α] (o : Option α) : Bool :=
+  match o with
+  | some v => !(feq v 0)
+  | none => false
+
 end
 end Summer.Jax
